@@ -324,6 +324,13 @@ def jobs(tier: str, seed: int) -> list[dict]:
                             params=dict(code=code, n=n, script=script, mode=mode, stacks=stacks,
                                         boards=boards),
                             budget_s=B, must_cover=['refused'], warnings='error'))
+    # other deck orders: different seats win, so the hand-killing / pulling phases wait for other seats than seat 0
+    for deck in ('reversed', 'stride7', 'stride5'):
+        out.append(dict(name=f'NT/n3/Rcc/C/deck-{deck}/end-of-hand-ops', fn='h_probe',
+                        params=dict(code='NT', n=3, script='Rcc', mode='C', stacks=[100, 100, 30], deck=deck,
+                                    ops=['show_or_muck_hole_cards', 'kill_hand', 'push_chips', 'pull_chips',
+                                         'select_runout_count']),
+                        budget_s=B, must_cover=['refused', 'performed:kill_hand'], warnings='error'))
     out.append(dict(name='regression/F12', kind='native', fn='known_f12', params={}, budget_s=30))
     out.append(dict(name='NT/n3/ccc/C/warnings-ignored', fn='h_probe',
                     params=dict(code='NT', n=3, script='ccc', mode='C', warn='ignore'),
